@@ -190,9 +190,15 @@ class ModbusTransactionManager(object):
                         broadcast = False
                         retries -= 1
                     addTransaction = partial(self._addReply, request)
-                    self.client.framer.processIncomingPacket(response,
-                                                             addTransaction,
-                                                             request.unit_id)
+                    try:
+                        self.client.framer.processIncomingPacket(response,
+                                                                 addTransaction,
+                                                                 request.unit_id)
+                    except ModbusIOException:
+                        # a reply filed before the frame that could not be
+                        # decoded must not stay behind for a later call
+                        self.getTransaction(request.transaction_id)
+                        raise
                     response = self.getTransaction(request.transaction_id)
                     if not response:
                         if len(self.transactions):
